@@ -180,6 +180,37 @@ def run_shard(ctx):
             holder = rng.choice([form.survey] + [r.children for r, _ in form.walk() if r.kind == "group"])
             holder.append(Row("group", "begin group", f"fg{i % 5}", cells, [Row("q", "text", f"fgq{i % 5}", {"label": "in flat"})]))
             ctx.ctr("flat_column_forms")
+        if i % 16 == 1:
+            # bind messages written on a group / repeat row (translated, or carrying a reference): filed like a question's
+            langs = form.meta.get("langs") or []
+            sk = rng.choice(["group", "repeat"])
+            cells = {"label" if not langs else f"label::{langs[0]}": "sec with messages"}
+            for base in rng.sample(["constraint_message", "required_message", "no_app_error_string"], rng.randint(1, 3)):
+                if langs and rng.random() < 0.75:
+                    for L in rng.sample(langs, rng.randint(1, len(langs))):
+                        cells[f"{base}::{L}"] = f"{base} {L}"
+                else:
+                    cells[base] = f"{base} says ${{smq{i % 5}}}"
+            cells["constraint"] = "count(.) >= 0"
+            cells["required"] = "yes"
+            form.survey.insert(0, Row("q", "text", f"smq{i % 5}", {"label": "q"}))
+            holder = rng.choice([form.survey] + [r.children for r, _ in form.walk() if r.kind == "group"])
+            holder.append(Row(sk, f"begin {sk}", f"sm{i % 5}", cells, [Row("q", "text", f"smin{i % 5}", {"label": "in"})]))
+            ctx.ctr("section_message_forms")
+        if i % 16 == 7:
+            # the same question name in several sections (legal: unique per parent), each a picture-only note
+            langs = form.meta.get("langs") or []
+            for g_ in range(rng.randint(2, 3)):
+                mh = rng.choice(["image", "audio", "video", "big-image"])
+                cells = {mh if not langs or rng.random() < 0.5 else f"{mh}::{rng.choice(langs)}": f"pic{g_}.png"}
+                if mh == "big-image":
+                    cells.setdefault("image", f"pic{g_}.png")
+                kids = [Row("q", "note", "pic", cells), Row("q", "text", f"sn{i % 5}_{g_}", {"label": "t"})]
+                if g_ == 0 and rng.random() < 0.5:
+                    form.survey.extend(kids[:1])
+                else:
+                    form.survey.append(Row("group", "begin group", f"sng{i % 5}_{g_}", {"label" if not langs else f"label::{langs[0]}": "g"}, kids))
+            ctx.ctr("same_name_media_forms")
         if i % 16 == 5:
             # osm question with (possibly translated) tags from the osm sheet
             langs = form.meta.get("langs") or []
